@@ -662,7 +662,7 @@ func init() {
 			if tier == "thorough" {
 				return kernel.TierSpec{Runs: 40_000_000, WallSeconds: 900, ShrinkSecs: 120, RunBudgetMs: 20000}
 			}
-			return kernel.TierSpec{Runs: 400_000, WallSeconds: 40, ShrinkSecs: 20, RunBudgetMs: 10000}
+			return kernel.TierSpec{Runs: 1_000_000, WallSeconds: 40, ShrinkSecs: 20, RunBudgetMs: 10000}
 		},
 		Rule:      "each run = one seeded operation history (<=200 ops over AddMapping/AddNamedMapping/AdvanceColumn/AdvanceString/AdvanceLine/SourceMap-snapshot) on one real SourceMapper, checked at every snapshot against a reference model through an independent v3 decoder; distinct = distinct hash of the operation sequence with arguments; non-trivial = at least 2 recorded mappings",
 		Real:      []string{"sourcemap.SourceMapper (all methods)", "sourcemap VLQ encoder (through SourceMap())"},
